@@ -21,3 +21,10 @@ package rotate
 //@   ensures[C10] err == nil ==> durPrimary == result0 && live[result0] && durCerts[result0]
 //@   ensures[C10] err == nil && old(durPrimary) != result0 && old(durPrimary) != "" ==> !live[old(durPrimary)] && destroyed[old(durPrimary)]
 //@   ensures[C10] forall(x, string, destroyed[x] && !old(destroyed)[x] ==> x != durPrimary && x == old(durPrimary))
+
+// C11 at the bootstrap level: the authority is only ever finalized with a pending primary signing key
+// whose certificate is part of the same mutation (precondition of the Finalize contract, checked here).
+//@ func Bootstrap
+//@   requires kcOf(ctx) == nil || (kcOf(ctx).CA != nil && kcOf(ctx).Manager != nil)
+//@   modifies *
+//@   ensures[C11] true
